@@ -326,13 +326,19 @@ structure SpecSt where
   m : Spec := []
   /-- the expected map at each `Checkpoint` call, newest call first -/
   saved : List (Nat × Spec) := []
-  /-- the handles the user of the database holds and has not given up: a handle is added when `Checkpoint` returns it,
-  removed only by a retention update that does not keep its id, by a new `Checkpoint` call with the same id, and by a
-  restore from an older checkpoint (which abandons the later ones). It survives restarts of the database. -/
+  /-- the handles the user of the database holds and has not given up. The user — the job — decides retention: a handle is
+  added when `Checkpoint` returns it and removed only by a retention update that does not keep its id (or replaced by a
+  new `Checkpoint` call with the same id). Restarting the database from any checkpoint removes nothing. -/
   handles : List Nat := []
-  /-- handles that were older than a checkpoint the database has been reopened from since (D50: the reopened instance
-  loads only that one entry of the `checkpoints` document and its next save drops the others) -/
+  /-- handles of checkpoints the running instance does not list: every other handle at the moment the database was
+  reopened from one of them (`LoadCheckpointList` loads one entry of the document) -/
+  unlisted : List Nat := []
+  /-- D50 situation: unlisted handles at a moment the running instance wrote the `checkpoints` document (the write drops
+  their entries) -/
   lost : List Nat := []
+  /-- D67 situation: handles newer than a checkpoint the database was reopened from (the reopened instance numbers its
+  table and WAL files above the opened checkpoint's only, and may overwrite theirs) -/
+  over : List Nat := []
 
 def specAt (saved : List (Nat × Spec)) (id : Nat) : Spec := ((saved.find? (fun p => p.1 == id)).map (·.2)).getD []
 
@@ -341,14 +347,21 @@ def retainedDone (s : State) (id : Nat) : Bool := s.done.contains id && s.ckpts.
 
 def stepSpec (s : State) (sp : SpecSt) : Act → SpecSt
   | .write del k v _ => { sp with m := specStep sp.m s.db.seq (if del then .del k else .put k v) }
-  | .checkpoint id => { sp with saved := (id, sp.m) :: sp.saved,
-                                 handles := sp.handles.filter (fun h => h != id), lost := sp.lost.filter (fun h => h != id) }
-  | .saveDoc id => { sp with handles := if s.ckpts.any (fun c => c.id == id) then id :: sp.handles else sp.handles }
-  | .retain ids => { sp with handles := sp.handles.filter (keeps ids), lost := sp.lost.filter (keeps ids) }
+  | .checkpoint id =>
+    { sp with saved := (id, sp.m) :: sp.saved,
+              handles := sp.handles.filter (fun h => h != id), unlisted := sp.unlisted.filter (fun h => h != id),
+              lost := sp.lost.filter (fun h => h != id), over := sp.over.filter (fun h => h != id) }
+  | .saveDoc id =>
+    { sp with handles := if s.ckpts.any (fun c => c.id == id) then id :: sp.handles else sp.handles,
+              lost := sp.lost ++ sp.unlisted }
+  | .saveList => { sp with lost := sp.lost ++ sp.unlisted }
+  | .retain ids =>
+    { sp with handles := sp.handles.filter (keeps ids), unlisted := sp.unlisted.filter (keeps ids),
+              lost := sp.lost.filter (keeps ids), over := sp.over.filter (keeps ids) }
   | .open id _ | .openBegin id =>
     { sp with m := specAt sp.saved id,
-              handles := sp.handles.filter (fun h => decide (h ≤ id)),
-              lost := (sp.lost ++ sp.handles.filter (fun h => decide (h < id))).filter (fun h => decide (h ≤ id)) }
+              unlisted := sp.unlisted ++ sp.handles.filter (fun h => h != id),
+              over := sp.over ++ sp.handles.filter (fun h => decide (id < h)) }
   | _ => sp
 
 /-- an instance is only ever opened from a completed handle of a checkpoint that is still retained (what a job does) -/
